@@ -134,8 +134,8 @@ Inductive case :=
 
 Definition case_ok (c : case) : bool :=
   match c with
-  | CStore c steps => run_steps c store_init steps
+  | CStore c steps => run_steps c (store_open c) steps
   | CSync acks c nrep steps =>
-      run_dsteps acks c (primary_init, repeat store_init (N.to_nat nrep)) steps
+      run_dsteps acks c (primary_init, repeat (store_open c) (N.to_nat nrep)) steps
   | CAlh h a => bytes_eqb (alh Hs h) a
   end.
